@@ -232,6 +232,7 @@ class Repo(object):
     def __init__(self, root, package='bitcoin', include_examples=False, desugar=True):
         self.root = root
         self.desugar_log = []
+        self.known_functions = None
         self.package = package
         self.modules = {}
         self.functions = {}
@@ -259,7 +260,9 @@ class Repo(object):
             from pblint import desugar as _ds
             if os.path.exists(_ds.INVENTORY):
                 try:
-                    self.desugar_log = _ds.Desugar(self).run()
+                    d_ = _ds.Desugar(self)
+                    self.known_functions = {q for mv in d_.inv.values() for q in mv['functions']}
+                    self.desugar_log = d_.run()
                 except RecursionError:
                     raise AnalysisError('desugaring pre-pass did not terminate')
                 if self.desugar_log:
